@@ -287,3 +287,27 @@ def saved_text_is_encodable(ctx):
     ctx.analysed(f)
     if not c07.json_text_is_encodable(ctx, f, 'file writer'):
         raise AnchorMissing('json.dump in the save function not found')
+
+
+@rule('C17.R1c', min_instances=1)
+def temporary_file_is_private_to_the_module(ctx):
+    """the temporary file a module writes its snapshot to is derived from that module's own persistent file name: a scratch file
+    shared by the modules of a node lets an overlapping save of another module rename the file away while this one still
+    writes through its open handle into (what is now) the other module's acknowledged snapshot"""
+    m = ctx.m
+    f, ren = _save_func(m)
+    ctx.analysed(f)
+    if not ren.args:
+        raise AnchorMissing('rename without arguments')
+    srcarg = ren.args[0]
+    texts = [src(o) for o in (origins(srcarg, f.node) if isinstance(srcarg, ast.Name) else [srcarg])]
+    # a self attribute defined elsewhere: follow its definition in the class
+    for a in [x for x in ast.walk(srcarg)] + [x for o in (origins(srcarg, f.node) if isinstance(srcarg, ast.Name) else []) for x in ast.walk(o)]:
+        if isinstance(a, ast.Attribute) and dotted(a.value) == 'self' and a.attr not in ('persistentFile',):
+            for g in m.cls(PM).methods.values():
+                texts += [src(v) for t, v, s in attr_stores(g.node) if t.attr == a.attr and v is not None]
+    txt = ' '.join(texts)
+    ok = 'persistentFile' in txt or 'self.name' in txt
+    ctx.check(ok, f'{f.qualname}:temporary file derived from the module own file name', ren, f'`{txt[:100]}`',
+              f'the temporary file `{src(srcarg)}` = {texts} does not depend on the module (its persistentFile / name): all persistent modules of the node write '
+              'through the same path, overlapping saves corrupt each other snapshot', f)
